@@ -75,6 +75,15 @@ def impl_bed_op(line):
             iv = FeatureInterval(es, ee, st, feature_name=symbol, feature_id=ident, sequence_name=seq_name,
                                  parent_or_seq_chunk_parent=parent)
             name = {"sym": "feature_name", "id": "feature_id"}.get(sel, sel[4:])
+        # call history: on every other line the SAME object is first exported in the other coordinate mode (and once
+        # more in the requested one); the record must not depend on what was exported before
+        import zlib
+        if zlib.crc32(line.encode()) % 2 == 1:
+            for pre in (not chrom_rel, chrom_rel):
+                try:
+                    iv.to_bed12(score=score, rgb=RGB(r, g, b), name=name, chromosome_relative_coordinates=pre)
+                except Exception:  # noqa: the other mode may legitimately be refused (no chunk ancestor)
+                    pass
         bed = iv.to_bed12(score=score, rgb=RGB(r, g, b), name=name, chromosome_relative_coordinates=chrom_rel)
         s = str(bed)
         if " " in s or "\n" in s:
